@@ -39,6 +39,20 @@ def truth(chk, verdicts):
                            "result": {k: s.get(k) for k in ("status", "nfev", "nit", "success")},
                            "explain": "run cobyqa.minimize on genruns.build(desc) with user-function spies; recompute, in the user's variables and from the values the functions returned, fun and the violation at res.x (harness/trace.py truth_at_result)",
                            "signature": {"failure": fail.split(" ")[0] + " " + fail.split(" ")[1] + " " + fail.split(" ")[2]}})
+    # the violation recorded at EVERY evaluation (it feeds the filter, maxcv_history and the stopping tests)
+    n_all = 0
+    for s, v in verdicts:
+        ta = s.get("truth_all")
+        if not ta or "error" in ta:
+            continue
+        n_all += ta["checked"]
+        if ta["bad"]:
+            b = ta["bad"]
+            fail = f"the violation recorded at evaluation {b['evaluation']} ({b['recorded']!r}) is not the true violation {b['true']!r} of the constraints as stated by the user at that point"
+            chk.violation({"property": "C02", "kind": "spec-fails-on-implementation", "desc": s["desc"], "inject": s["inject"], "failure": fail, "at": b,
+                           "explain": "run cobyqa.minimize on genruns.build(desc) with user-function spies; harness/trace.py truth_all recomputes the violation at every evaluated point from the raw values",
+                           "signature": {"failure": "the violation recorded"}})
+    chk.coverage["evaluations_whose_violation_was_recomputed_independently"] = n_all
     chk.coverage["results_recomputed_independently"] = n
     chk.coverage["results_with_nan_values"] = nan_cases
 
